@@ -73,8 +73,12 @@ func main() {
 	workers := flag.Int("w", 4, "path-exploration workers per harness")
 	samples := flag.Int("samples", 3, "sample models per harness")
 	smtlog := flag.String("smtlog", "", "directory for SMT transcripts")
+	shard := flag.String("l2shard", "", "r/M: decide only the L2 configurations with index%M == r")
 	flag.Parse()
 
+	if *shard != "" {
+		fmt.Sscanf(*shard, "%d/%d", &shardR, &shardM)
+	}
 	res := Output{Repo: *repo, Solver: *solver}
 	emit := func() {
 		b, _ := json.MarshalIndent(res, "", " ")
